@@ -10,7 +10,9 @@ CONSTANTS V, C, E, R,       \* validators, cores, epoch length, rotation period
           MaxBlocks,
           Jumps,            \* slot increments
           Tickets,          \* ticket counts
-          MaxG, MaxA        \* guarantees / assurances per block
+          MaxG, MaxA,       \* guarantees / assurances per block
+          PreOpts,          \* preimage extrinsics
+          AvAc              \* pairs <<newly available reports, accumulation statistics>>
 
 VARIABLES tau, piV, piL, piC, piS, kidx, nblk,
           ep                \* history: the blocks imported in the current epoch
@@ -21,7 +23,6 @@ vars == <<tau, piV, piL, piC, piS, kidx, nblk, ep>>
 KeySet(k) == [i \in 1..V |-> ((i + k) % (V + 2)) + 1]
 Gas(n) == U(n)
 Digest(s, k) == [s |-> s, i |-> k, x |-> 1, z |-> 2 * k, e |-> k + 1, u |-> Gas(10 * k + s)]
-PreOpts == {<<>>, <<<<1, 3>>>>, <<<<2, 5>>, <<1, 1>>>>}
 SigSets == {q \in {<<a, b>> : a \in 0..(V - 1), b \in 0..(V - 1)} : q[1] < q[2]}
 Guarantee(slot, core, sigs) == [slot |-> slot, core |-> core, sigs |-> sigs, len |-> 100 + core, nexp |-> core,
                                 res |-> IF core = 0 THEN <<Digest(1, 1)>> ELSE <<Digest(1, 2), Digest(2, 3)>>]
@@ -31,8 +32,6 @@ GOpts(slot) == {<<>>}
 Assurance(v) == [v |-> v, bits |-> [c \in 1..C |-> (v + c) % 2]]
 AOpts == {<<>>} \cup {<<Assurance(v)>> : v \in 0..(V - 1)}
          \cup (IF MaxA < 2 THEN {} ELSE {q \in {<<Assurance(v), Assurance(w)>> : v \in 0..(V - 1), w \in 0..(V - 1)} : q[1].v < q[2].v})
-AvailOpts == {<<>>, <<[core |-> 0, len |-> 64, nexp |-> 1]>>}
-AccOpts == {<<>>, <<[s |-> 3, n |-> 2, u |-> Gas(77)]>>}
 
 Init == /\ tau = E /\ kidx = 1 /\ nblk = 0
         /\ piV = [v \in 1..V |-> ZeroVal] /\ piL = [v \in 1..V |-> ZeroVal]
@@ -51,14 +50,14 @@ Block(blk) ==
   /\ piS' = (LET ss == SetToSortSeq(Services(blk), <) IN [k \in 1..Len(ss) |-> ServiceRec(blk, ss[k])])
   /\ ep' = IF newep THEN <<blk>> ELSE Append(ep, blk)
 
-Next == \E dt \in Jumps, author \in 0..(V - 1), nt \in Tickets, pre \in PreOpts, as \in AOpts, av \in AvailOpts, ac \in AccOpts :
+Next == nblk < MaxBlocks /\ \E dt \in Jumps, author \in 0..(V - 1), nt \in Tickets, pre \in PreOpts, as \in AOpts, aa \in AvAc :
           LET slot == tau + dt
               k2 == IF slot \div E # tau \div E THEN kidx + 1 ELSE kidx IN
           \E gs \in GOpts(slot) :
-             Block([slot |-> slot, author |-> author, nt |-> nt, pre |-> pre, gs |-> gs, as |-> as, avail |-> av, acc |-> ac,
+             Block([slot |-> slot, author |-> author, nt |-> nt, pre |-> pre, gs |-> gs, as |-> as, avail |-> aa[1], acc |-> aa[2],
                     kappa |-> KeySet(k2), lambda |-> KeySet(k2 - 1)])
 Spec == Init /\ [][Next]_vars
-View == state
+View == <<tau, piV, piL, kidx, nblk>>     \* core and service records do not influence the future
 
 \* ---------------------------------------------------------------- properties (statement of C34)
 Total(f) == SumSeq([v \in 1..V |-> piV[v][f]])
